@@ -70,7 +70,26 @@ func block3(tier string) int {
 	return len(edges) + len(kinds)
 }
 
-func nCases(tier string) int { return firstBlock(tier) + block2(tier) + block3(tier) }
+func nCases(tier string) int { return firstBlock(tier) + block2(tier) + block3(tier) + block4(tier) }
+
+// block4: the late-global workload (added after the other blocks so that their cases keep
+// their indices): routines define functions that read a global nobody has defined yet.
+func block4(tier string) int {
+	if tier == "thorough" {
+		return 48
+	}
+	return 6
+}
+
+func gen4(r *rand.Rand, j int) Case {
+	c := Case{Kind: "late-global", N: []int{8, 4, 2, 8, 6, 3}[j%6], M: 30 + r.IntN(31)}
+	c.Procs = []int{16, 4, 2, 16}[j%4]
+	c.Perturb = perturbs[(j/2)%4]
+	c.Shape = []string{"defun", "lambda", "defmethod"}[j%3]
+	c.Warm = true
+	c.Salt = 400000 + j
+	return c
+}
 
 // gen2 makes case j of the second block. Cases come in groups of four (one
 // per kind); group a has GOMAXPROCS {16,4,2,1}[a%4]; groups 0-3 of every 12
@@ -144,6 +163,9 @@ func gen3(r *rand.Rand, j int) Case {
 func selectDrainRounds(c Case) int { return 2*c.M + 20 }
 
 func gen(r *rand.Rand, i int, tier string) Case {
+	if b3 := firstBlock(tier) + block2(tier) + block3(tier); b3 <= i {
+		return gen4(r, i-b3)
+	}
 	if fb := firstBlock(tier); fb+block2(tier) <= i {
 		return gen3(r, i-fb-block2(tier))
 	} else if fb <= i {
@@ -566,6 +588,41 @@ func program(c Case) (src string, warm string) {
 				u, k, u, k, k, c.M, u, k, u, k, k, u, k)
 		}
 		fmt.Fprintf(&b, " (dotimes (i %d) (channel-pop done))\n (let ((res nil)) (dotimes (i %d) (setq res (cons (channel-pop out) res))) res))", c.N, c.N)
+	case "late-global":
+		// rounds: N routines at once define a function (defun, a lambda kept in a global, or a
+		// method) whose body is the bare symbol of a global that does not exist yet; after they
+		// are joined the global is defined and every one of the functions must see its value
+		classes := []string{"fixnum", "string", "symbol", "double-float", "cons", "character", "vector", "hash-table"}
+		samples := []string{"1", "\"s\"", "'a", "1.5", "'(1)", "#\\a", "(vector 1)", "(make-hash-table)"}
+		fmt.Fprintf(&b, "(let* ((done (make-channel %d)) (res nil))\n", c.N+1)
+		for r := 0; r < c.M; r++ {
+			if c.Shape == "defmethod" {
+				fmt.Fprintf(&b, " (defgeneric %s-gm%d (x))\n", u, r)
+			}
+			for k := 0; k < c.N; k++ {
+				switch c.Shape {
+				case "lambda":
+					fmt.Fprintf(&b, " (run (progn (defvar *%s-l%d-%d* (lambda () *%s-g%d*)) (channel-push done t)))\n", u, k, r, u, r)
+				case "defmethod":
+					fmt.Fprintf(&b, " (run (progn (defmethod %s-gm%d ((x %s)) *%s-g%d*) (channel-push done t)))\n", u, r, classes[k%8], u, r)
+				default:
+					fmt.Fprintf(&b, " (run (progn (defun %s-f%d-%d () *%s-g%d*) (channel-push done t)))\n", u, k, r, u, r)
+				}
+			}
+			fmt.Fprintf(&b, " (dotimes (i %d) (channel-pop done))\n (defvar *%s-g%d* %d)\n (setq res (cons (list", c.N, u, r, 100+r)
+			for k := 0; k < c.N; k++ {
+				switch c.Shape {
+				case "lambda":
+					fmt.Fprintf(&b, " (ignore-errors (funcall *%s-l%d-%d*))", u, k, r)
+				case "defmethod":
+					fmt.Fprintf(&b, " (ignore-errors (%s-gm%d %s))", u, r, samples[k%8])
+				default:
+					fmt.Fprintf(&b, " (ignore-errors (%s-f%d-%d))", u, k, r)
+				}
+			}
+			b.WriteString(") res))\n")
+		}
+		b.WriteString(" (reverse res))")
 	case "printing":
 		// formatted and pretty output from all routines; each result is compared
 		// with the same rendering done sequentially by the harness
@@ -842,6 +899,27 @@ func exec(x *fw.Ctx, c Case) {
 			}
 		}
 		x.CoverN("increments", c.N*c.M)
+	case "late-global":
+		l, _ := res.(slip.List)
+		if len(l) != c.M {
+			x.Fail(sig("shape"), "%s: %d rounds in the result, expected %d (%s)", cfg, len(l), c.M, shown)
+			return
+		}
+		for r, e := range l {
+			want := fmt.Sprint(100 + r)
+			el, _ := e.(slip.List)
+			for k, v := range el {
+				if sl.Show(v) != want {
+					x.Fail(sig("function-does-not-see-the-global shape="+c.Shape), "%s: round %d: the function routine %d defined before (defvar g %s) returns %s after it; the other functions of the round: %s", cfg, r, k, want, sl.Show(v), sl.Show(e))
+					return
+				}
+			}
+			if len(el) != c.N {
+				x.Fail(sig("shape"), "%s: round %d has %d results, expected %d", cfg, r, len(el), c.N)
+				return
+			}
+		}
+		x.CoverN("late-global:functions-defined-concurrently", c.N*c.M)
 	case "defvar-defun":
 		l, _ := res.(slip.List)
 		got := map[int64]int64{}
